@@ -77,6 +77,8 @@ TEMPLATES = [
     ("create view {w} as select * from {r1} union all select * from {r2}", 2),
     ("insert into {w} with c as (select * from {r1}) select * from c", 1),
     ("select * from {r1}", 1),
+    ("select k from {r1} union all select k from {r2}", 2),
+    ("(select k, v from {r1})", 1),
     ("select a.k from {r1} a, {r2} b", 2),
     ("insert into {w} values (1, 2)", 0),
     ("create table {w} (k int)", 0),
@@ -271,6 +273,7 @@ def main() -> int:
     n_scripts = 700 if quick else 6000
     scripts = [gen_script(r, r.choice([1, 2, 2, 3, 3, 4, 5])) for _ in range(n_scripts)]
     t4, gal4 = [], []
+    alone_cache = {}
     for stmts in scripts:
         sql = ";\n".join(stmts)
         with StatementTap() as tap:
@@ -285,6 +288,25 @@ def main() -> int:
             continue
         hs_ = [h for _, h in tap.of_runner(lr)]
         abst = [abstract_holder(h) for h in hs_]
+        # the same statements analysed ON THEIR OWN (no metadata: statements are independent): what each statement reads and
+        # writes must not depend on the statements before it in the script
+        alone = []
+        for st_ in stmts:
+            if st_ not in alone_cache:
+                with StatementTap() as tap1:
+                    try:
+                        lr1 = LineageRunner(st_, dialect="ansi")
+                        lr1._eval()
+                        hh = [h for _, h in tap1.of_runner(lr1)]
+                        alone_cache[st_] = abstract_holder(hh[0]) if len(hh) == 1 else None
+                    except Exception:      # noqa
+                        alone_cache[st_] = None
+            alone.append(alone_cache[st_])
+        if all(x is not None for x in alone) and len(alone) == len(abst) and alone != abst:
+            k_ = next(j for j in range(len(abst)) if alone[j] != abst[j])
+            spec_failures.append({"suite": "T4-statement-in-script-vs-alone", "script": stmts, "statement_index": k_,
+                                  "holder_in_script": abst[k_], "holder_on_its_own": alone[k_],
+                                  "spec": "the reads and writes of a statement (from which the script's edges and roles follow) do not depend on the statements before it"})
         t4.append((stmts, abst, impl))
         gal4.append("[%s]" % "; ".join(g_holder(h) for h in hs_))
     model4 = coq_eval(HEADER, [f"show_build {g_astmts(a)}" for _, a, _ in t4], shard=300)
